@@ -436,7 +436,7 @@ func (r *vfRun) nodeLambda(prefix string, sc *vfScenario, name string) *Lambda {
 				if rc.cancel != nil {
 					rc.cancel()
 				}
-			case "cspanic", "prerr", "posterr":
+			case "cspanic", "prerr", "posterr", "empty":
 				// handled elsewhere: a state callback of the node panics / its state pre- or post-handler fails (the body itself is fine)
 			case "serr", "spanic":
 				// the body succeeds; its output stream carries an error item / a panicking convert (see below)
@@ -476,6 +476,15 @@ func (r *vfRun) nodeLambda(prefix string, sc *vfScenario, name string) *Lambda {
 				}
 				return m, nil
 			}), nil
+		})
+	}
+	if fail != nil && fail.Kind == "empty" {
+		// the node works normally but its output stream ends without a single chunk (only meaningful when the graph runs in stream mode)
+		return StreamableLambda(func(ctx context.Context, in map[string]any) (*schema.StreamReader[map[string]any], error) {
+			if _, err := body(ctx, in); err != nil {
+				return nil, err
+			}
+			return schema.StreamReaderFromArray([]map[string]any{}), nil
 		})
 	}
 	if fail != nil && fail.Kind == "serr" {
@@ -1102,6 +1111,8 @@ func vfClassify(err error) map[string]any {
 	case strings.Contains(msg, "context has been canceled") || strings.Contains(msg, "context canceled"):
 		out["class"] = "canceled"
 		out["is"] = errors.Is(err, context.Canceled)
+	case strings.Contains(msg, "stream reader is empty") && !strings.Contains(msg, "convert checkpoint"):
+		out["class"] = "emptystream"
 	case strings.Contains(msg, "verif store: write refused"):
 		out["class"] = "store"
 	case strings.Contains(msg, "duplicated key"):
